@@ -1,13 +1,18 @@
 #!/bin/bash
 # tools_mutant.sh <patch.diff> <prop> [tier]  — apply a patch to /repo, run one check, revert.
+# Prints the verdict lines; evidence/replays written by the mutant run are discarded.
 set -u
 patch="$1"; prop="$2"; tier="${3:-quick}"
 git -C /repo diff --quiet || { echo "repo dirty"; exit 2; }
 git -C /repo apply "$patch" || { echo "patch does not apply"; exit 2; }
-/verif/vcheck "$prop" "$tier" > /tmp/mutant.out 2>&1; rc=$?
+out=$(mktemp /tmp/mutant.XXXXXX)
+t0=$(date +%s)
+/verif/vcheck "$prop" "$tier" > "$out" 2>&1; rc=$?
 git -C /repo checkout -- . ; git -C /repo clean -fdq
-grep -E "^(VIOLATION|KNOWN-FINDING|HARNESS-ERROR|C[0-9]+ )" /tmp/mutant.out | cut -c1-300 | head -${MUTANT_LINES:-12}
-echo "exit=$rc"
-# restore evidence written by the mutant run
-git -C /verif checkout -- evidence 2>/dev/null
-rm -rf /verif/replays
+grep -E "^(VIOLATION|KNOWN-FINDING|HARNESS-ERROR|  signature|C[0-9]+ )" "$out" | cut -c1-400 | head -${MUTANT_LINES:-12}
+echo "exit=$rc wall=$(( $(date +%s) - t0 ))s"
+rm -f "$out"
+# discard evidence / replays written by the mutant run
+git -C /verif checkout -- evidence replays 2>/dev/null
+git -C /verif clean -fdq replays evidence 2>/dev/null
+exit 0
